@@ -76,6 +76,10 @@ type c12Race struct {
 type c12Kill struct {
 	Flush int `json:"flush"`
 	NSel  int `json:"nSel"`
+	// DelayUS > 0: instead of a kill at a pause point the compaction child gets SIGKILL from
+	// outside that many microseconds after it reported its hub open (a kill at an arbitrary
+	// instant; what it hits depends on timing, the case records what was observed).
+	DelayUS int `json:"delayUS,omitempty"`
 }
 
 type c12Case struct {
@@ -1020,6 +1024,10 @@ func (r *c12Runner) runRace(rc c12Race) {
 // kill part: a child process compacts and is killed at the n-th arrival at the
 // flush point; the parent reopens the store and compares with before.
 func (r *c12Runner) runKill(k c12Kill) {
+	if k.DelayUS > 0 {
+		r.runKillTimed(k)
+		return
+	}
 	hitsTotal := r.countHits(k.Flush)
 	n := 1 + k.NSel%hitsTotal
 	dir := kit.NewDir("c12k")
@@ -1071,6 +1079,114 @@ func (r *c12Runner) runKill(k c12Kill) {
 	}
 }
 
+// runKillTimed: the compaction child is killed from outside after a drawn delay.
+func (r *c12Runner) runKillTimed(k c12Kill) {
+	dir := kit.NewDir("c12t")
+	defer os.RemoveAll(dir)
+	h := c12Build(r.f, dir, r.c.Ops)
+	before := r.observe(h, r.skipIn, nil, true, "before compaction")
+	_ = h.Store.Close()
+	h.Store = nil
+	ready := dir + "/child-ready"
+	cmd := exec.Command(os.Args[0], "-test.run", "^TestVerifChild_C12$", "-test.count", "1")
+	cmd.Env = append(os.Environ(), "VERIF_C12_CHILD="+dir, "VERIF_C12_FLUSH="+strconv.Itoa(k.Flush), "VERIF_C12_READY="+ready,
+		"VERIF_CRASH=", "VERIF_STATS=", "VERIF_JOURNAL=")
+	var buf bytes.Buffer
+	cmd.Stdout, cmd.Stderr = &buf, &buf
+	if err := cmd.Start(); err != nil {
+		r.f.Fatalf("VERIF-INFRA cannot start the compaction child: %v", err)
+	}
+	exited := make(chan error, 1)
+	go func() { exited <- cmd.Wait() }()
+	deadline := time.Now().Add(60 * time.Second)
+	isReady, gone := false, false
+	var werr error
+	for !isReady && !gone && time.Now().Before(deadline) {
+		select {
+		case werr = <-exited:
+			gone = true
+		default:
+			if _, e := os.Stat(ready); e == nil {
+				isReady = true
+			} else {
+				time.Sleep(100 * time.Microsecond)
+			}
+		}
+	}
+	if isReady {
+		t1 := time.Now()
+		for time.Since(t1) < time.Duration(k.DelayUS)*time.Microsecond {
+		}
+	}
+	if !gone {
+		_ = cmd.Process.Kill()
+		werr = <-exited
+	}
+	killed := false
+	if ee, ok := werr.(*exec.ExitError); ok {
+		if ws, ok := ee.Sys().(syscall.WaitStatus); ok && ws.Signaled() && ws.Signal() == syscall.SIGKILL {
+			killed = true
+		}
+	}
+	if !killed && werr != nil {
+		if strings.Contains(buf.String(), "VERIF-INFRA") {
+			r.f.Fatalf("VERIF-INFRA compaction child: %v\n%s", werr, buf.String())
+		}
+		r.fail("COMPACTION-CHILD-FAILED flush=%d (timed kill part): %v\n%s", k.Flush, werr, buf.String())
+	}
+	if !killed {
+		kit.S().AddExtra("timed kill came after the compaction had ended", 1)
+	} else {
+		kit.S().AddExtra("timed kills of the compaction child", 1)
+	}
+	if kit.Known("F27") && c12EmptyMemtable(dir) {
+		// known finding F27 (input shape: the killed process left an empty memtable file): that start
+		// fails and sizes the file; carry on with the start after it
+		kit.S().Exclude("F27")
+		func() {
+			defer func() { _ = recover() }()
+			if h0 := kit.NewHub(kit.HubOpts{Dir: dir}); h0 != nil && h0.Store != nil {
+				_ = h0.Store.Close()
+			}
+		}()
+	}
+	var h2 *kit.Hub
+	func() {
+		defer func() {
+			if p := recover(); p != nil {
+				r.fail("STORE-DOES-NOT-OPEN after the compaction process was killed %dus after its hub was open (flush=%d): %v", k.DelayUS, k.Flush, p)
+			}
+		}()
+		h2 = c12Open(r.f, dir)
+	}()
+	defer func() { _ = h2.Store.Close() }()
+	what := fmt.Sprintf("flush=%d compaction process killed %dus after its hub was open (killed=%v), store reopened", k.Flush, k.DelayUS, killed)
+	after := r.observe(h2, r.skipIn, before, true, what)
+	r.compare(before, after, what)
+	if _, err := c12Compact(h2, k.Flush, nil); err != nil {
+		r.fail("COMPACTION-ERROR on the reopened store (%s): %v", what, err)
+	}
+	after2 := r.observe(h2, r.skipIn, before, true, what+", compacted again")
+	r.compare(before, after2, what+", compacted again")
+	if killed {
+		r.kills++
+	}
+}
+
+func c12EmptyMemtable(dir string) bool {
+	for _, sub := range []string{"store", ""} {
+		ents, _ := os.ReadDir(dir + "/" + sub)
+		for _, e := range ents {
+			if strings.HasSuffix(e.Name(), ".mem") {
+				if st, err := e.Info(); err == nil && st.Size() == 0 {
+					return true
+				}
+			}
+		}
+	}
+	return false
+}
+
 // TestVerifChild_C12 is the compaction child of the kill part.
 func TestVerifChild_C12(t *testing.T) {
 	dir := os.Getenv("VERIF_C12_CHILD")
@@ -1080,6 +1196,9 @@ func TestVerifChild_C12(t *testing.T) {
 	flush, _ := strconv.Atoi(os.Getenv("VERIF_C12_FLUSH"))
 	h := kit.NewHub(kit.HubOpts{Dir: dir})
 	c := NewCompactor(h.Store, h.Dsm, zap.NewNop().Sugar())
+	if rf := os.Getenv("VERIF_C12_READY"); rf != "" {
+		_ = os.WriteFile(rf, []byte("1"), 0o644)
+	}
 	if err := c.compact(c12DS, c12Strategy(flush)); err != nil {
 		t.Fatalf("compaction failed: %v", err)
 	}
@@ -1273,6 +1392,9 @@ func c12GenCase(t *rapid.T) *c12Case {
 	nk := kit.EnvInt("VERIF_C12_KILLS", 2)
 	for i := 0; i < nk; i++ {
 		c.Kills = append(c.Kills, c12Kill{Flush: rapid.SampledFrom([]int{1, 1, 2, 3, c12Default}).Draw(t, "kflush"), NSel: rapid.IntRange(0, 999).Draw(t, "kn")})
+	}
+	for i := 0; i < kit.EnvInt("VERIF_C12_TIMED_KILLS", 1); i++ {
+		c.Kills = append(c.Kills, c12Kill{Flush: rapid.SampledFrom([]int{1, 1, 2, 3, c12Default}).Draw(t, "tkflush"), DelayUS: rapid.IntRange(1, 4000).Draw(t, "tkdelay")})
 	}
 	return c
 }
